@@ -121,6 +121,9 @@ def p_full(I, n, pos, kw):
 
 @prim("numpy.zeros_like", "numpy.ones_like")
 def p_like(I, n, pos, kw):
+    if "shape" in kw and not isinstance(kw["shape"], NoneV):
+        # *_like(a, shape=...): only the dtype is a's; the shape is the one asked for
+        return _filled(I, n, [kw["shape"]], {}, sym.ZERO if "zeros" in I.log[-1]["target"] else sym.ONE)
     a = arrays.to_arr(pos[0])
     if isinstance(a, (Blocks, DiagMat)):
         a = arrays.densify(a)
@@ -258,8 +261,10 @@ def p_parallel(I, n, pos, kw):
 @prim("builtins.getattr")
 def p_getattr(I, n, pos, kw):
     if len(pos) >= 2 and isinstance(pos[1], StrV):
-        if isinstance(pos[0], ObjV) and len(pos) == 3 and pos[1].s not in pos[0].attrs and not pos[0].cls:
-            return pos[2]
+        if isinstance(pos[0], ObjV) and len(pos) == 3 and pos[1].s not in pos[0].attrs:
+            c = I.p.classes.get(pos[0].cls) if pos[0].cls else None
+            if c is None or c.lookup(pos[1].s, I.p) is None:
+                return pos[2]   # neither an instance attribute set so far nor a member of the class: the default
         return I.attribute(pos[0], pos[1].s, n, {})
     return I.unknown("getattr-dynamic-name", n)
 
@@ -610,6 +615,42 @@ def p_eye(I, n, pos, kw):
     return I.unknown("eye", n)
 
 
+_INT_RANGES = {"int8": (-2 ** 7, 2 ** 7 - 1), "int16": (-2 ** 15, 2 ** 15 - 1), "int32": (-2 ** 31, 2 ** 31 - 1),
+               "int64": (-2 ** 63, 2 ** 63 - 1), "uint8": (0, 2 ** 8 - 1), "uint16": (0, 2 ** 16 - 1), "uint32": (0, 2 ** 32 - 1),
+               "uint64": (0, 2 ** 64 - 1), "intc": (-2 ** 31, 2 ** 31 - 1), "int_": (-2 ** 63, 2 ** 63 - 1),
+               "longlong": (-2 ** 63, 2 ** 63 - 1), "byte": (-2 ** 7, 2 ** 7 - 1), "short": (-2 ** 15, 2 ** 15 - 1)}
+
+
+@prim("numpy.iinfo")
+def p_iinfo(I, n, pos, kw):
+    """np.iinfo(T) for a fixed-width numpy integer type: .min, .max, .bits (values beyond 2**53 are held as floats: tests
+    that sit exactly on the 64-bit boundary are not exact)"""
+    t = pos[0] if pos else None
+    name = t.target.rsplit(".", 1)[-1] if isinstance(t, FuncV) and isinstance(t.target, str) and t.target.startswith("numpy.") else None
+    if name not in _INT_RANGES:
+        return I.unknown("prim:numpy.iinfo", n)
+    lo, hi = _INT_RANGES[name]
+    return ObjV(None, {"min": Sc(sym.Num(float(lo))), "max": Sc(sym.Num(float(hi))),
+                       "bits": Sc(sym.Num(float((hi - lo + 1).bit_length() - 1))), "dtype": t}, tag="iinfo")
+
+
+@prim("numpy.tril_indices", "numpy.triu_indices")
+def p_tri_indices(I, n, pos, kw):
+    """the (rows, cols) of the lower / upper triangle of an n×n array for a known n, in numpy's row-major order"""
+    tgt = I.log[-1]["target"]
+    nn = pos[0] if pos else kw.get("n")
+    k = pos[1] if len(pos) > 1 else kw.get("k", Sc(sym.ZERO))
+    m = pos[2] if len(pos) > 2 else kw.get("m")
+    if not (isinstance(nn, Sc) and nn.e is not None and nn.e[0] == "num" and float(nn.e[1]).is_integer() and nn.e[1] <= 12
+            and isinstance(k, Sc) and k.e is not None and k.e[0] == "num" and float(k.e[1]).is_integer()) \
+            or (m is not None and not isinstance(m, NoneV)):
+        return I.unknown("prim:" + tgt, n)
+    N, K = int(nn.e[1]), int(k.e[1])
+    lower = tgt.endswith("tril_indices")
+    cells = [(r, c) for r in range(N) for c in range(N) if (c - r <= K if lower else c - r >= K)]
+    return Seq([Seq([Sc(sym.Num(r)) for r, _ in cells], "list"), Seq([Sc(sym.Num(c)) for _, c in cells], "list")], "tuple")
+
+
 @prim("numpy.diag_indices", "numpy.diag_indices_from")
 def p_diag_indices(I, n, pos, kw):
     """(arange(k), arange(k)): the index pair that walks the main diagonal"""
@@ -693,6 +734,13 @@ def p_diag(I, n, pos, kw):
 
 @prim("numpy.empty_like", "numpy.full_like")
 def p_empty_like(I, n, pos, kw):
+    if "shape" in kw and not isinstance(kw["shape"], NoneV):
+        if "full_like" in I.log[-1]["target"]:
+            fv = _kw(kw, pos, "fill_value", 1)
+            if not isinstance(fv, Sc) or fv.e is None:
+                return I.unknown("np.full_like-value", n)
+            return _filled(I, n, [kw["shape"]], {}, fv.e)
+        return _filled(I, n, [kw["shape"]], {}, sym.Opq("uninitialised", (), None))
     a = arrays.to_arr(pos[0])
     if isinstance(a, (Blocks, DiagMat)):
         a = arrays.densify(a)
